@@ -343,3 +343,17 @@ def _dir_placement(repo, ob, failure):
                     if any(not abs(p - q) <= 0.002 for p, q in zip(got, want)):
                         return {"input": doc, "observed": "x,y,width,height = %r" % (got,), "expected": "%r" % (want,)}
     return None
+
+
+@generator("C16.cond.")
+def _cond_nonzero(repo, ob, failure):
+    """<if test=V> renders its body exactly when V is non-zero; while / until likewise"""
+    for v, want in (("-1", True), ("0", False), ("0.5", True), ("-0.25", True), ("2", True), ("{{0 - 3}}", True)):
+        doc = '<svg><if test="%s"><rect id="z" wh="3"/></if></svg>' % v
+        r = run_svgdx(repo, doc)
+        if r["rc"] != 0:
+            continue
+        got = 'id="z"' in r["out"]
+        if got != want:
+            return {"input": doc, "observed": "body %s" % ("rendered" if got else "not rendered"), "expected": "body %s" % ("rendered" if want else "not rendered")}
+    return None
